@@ -115,6 +115,19 @@ CLAIMS = {
          "rule sets per history (the rule-set table holds 10); application emitters delegate to built-in rules.",
     technique="TLA+ spec + TLC (all histories within bounds, seeded simulation for replay); replay into liborc; TLC "
               "trace validation"),
+ "C13": dict(
+    text="Bytecode.tla defines Encode/Decode between abstract programs and byte sequences; TLC checks RoundTrip and "
+         "Stable for every program Gen_Bytecode builds within the step bound (boundary values 254/255/256/65534 in "
+         "every integer field, all parameter classes, 32/64-bit constants with sign bits set, 2-D, long names, x2/x4, "
+         "2-destination opcodes).  Seeded TLC simulations give longer programs that are built through the API, "
+         "serialised, reconstructed and re-serialised by the library; TLC validates each BC event: reconstruction = "
+         "Norm(original), identical bytes on the second serialisation, identical emulation results.  Agreement of "
+         "the library's bytes with the specification's Encode is diagnostic only.",
+    design_ref="DESIGN.md section 6 C13",
+    note="Variable names/type names are outside the abstract program; instructions come from 8 templates; the "
+         "100-instruction boundary is C05's.  orcbytecodes.h numbering is compared with the opcode table (prefix).",
+    technique="TLA+ spec (encode/decode functions) + TLC over a bounded program grammar; replay of TLC-generated "
+              "programs through liborc; TLC trace validation"),
 }
 
 NOT_APPLICABLE = {
